@@ -32,7 +32,7 @@ ID = 'C09'
 LEVEL = 'exploration'
 ENGINE = 'E1'
 EXHAUSTIVE = True
-RULE = ('per base grid (4 geometries x 3 atmosphere types): all block permutations x connection permutations x reversal '
+RULE = ('per base grid (6 geometries incl. a stepped-surface and a tilted one x 3 atmosphere types): all block permutations x connection permutations x reversal '
         'subsets when <= 4 blocks and <= 4 connections, else identity + all transpositions + all single/double/full '
         'reversals + geometry orders; all one-to-one rename maps on a 4-name sub-universe plus spare and whole-grid maps; '
         'breadth-first compositions of {reorder, rename, file write+read}; all compositions of 10 tenths into 2..6 MINC '
@@ -54,9 +54,9 @@ ASSUMPTIONS = [
     'trusted: ref/gridmodel.py',
 ]
 BOUNDS = {
-    'quick': {'reorder': 'all 12 base grids', 'rename': 'all base grids', 'seq_depth': 3, 'minc_parts': '2..5 (255 vectors)',
+    'quick': {'reorder': 'all 18 base grids', 'rename': 'all base grids', 'seq_depth': 3, 'minc_parts': '2..5 (255 vectors)',
               'minc_selections': 'all, 1 single, 1 pair', 'embed': 'all base grids'},
-    'thorough': {'reorder': 'all 12 base grids', 'rename': 'all base grids', 'seq_depth': 4, 'minc_parts': '2..6 (381 vectors)',
+    'thorough': {'reorder': 'all 18 base grids', 'rename': 'all base grids', 'seq_depth': 4, 'minc_parts': '2..6 (381 vectors)',
                  'minc_selections': 'all, each single, each pair (11)', 'embed': 'all base grids'},
 }
 TECHNIQUE = ('bounded exhaustive enumeration of permutations, reversal subsets, rename maps, MINC fraction vectors and embed '
@@ -69,7 +69,7 @@ LEVEL_NOTE = ('Grids above 4 blocks are covered to transpositions and double rev
               'distances and areas are not asserted (the statement fixes volumes, fractions and the chain only). States with the '
               'right physics but a broken C08 invariant are not expanded.')
 
-GEOS = ['R212', 'R222', 'R312', 'IRR6']
+GEOS = ['R212', 'R222', 'R312', 'IRR6', 'R222S', 'R222T']      # ...S stepped surface, ...T tilted (gdcx, gdcy)
 _quiet = io.StringIO()
 
 
@@ -121,6 +121,18 @@ def base_geo(gname, atm, block_order=None):
                 g = mulgrids.mulgrid().rectangular([10., 20.], [30., 40.], [5., 7.], atmos_type=atm, block_order=block_order)
             elif gname == 'R312':
                 g = mulgrids.mulgrid().rectangular([10., 20., 15.], [30.], [5., 7.], atmos_type=atm, block_order=block_order)
+            elif gname == 'R222S':
+                # stepped / sloping surface: truncated top blocks at different elevations and one column
+                # without a top-layer block, so horizontal connections have a non-zero gravity cosine
+                g = mulgrids.mulgrid().rectangular([10., 20.], [30., 40.], [5., 7.], atmos_type=atm, block_order=block_order)
+                for col, surf in zip(g.columnlist, (0., -2., -5., -1.)):
+                    col.surface = surf
+                    g.set_column_num_layers(col)
+                g.setup_block_name_index()
+                g.setup_block_connection_name_index()
+            elif gname == 'R222T':
+                g = mulgrids.mulgrid().rectangular([10., 20.], [30., 40.], [5., 7.], atmos_type=atm, block_order=block_order)
+                g.gdcx, g.gdcy = 0.1, 0.2
             elif gname == 'IRR6':
                 g = irregular_geo(atm, block_order)
             else:
